@@ -140,6 +140,11 @@ func (c *FnVC) loopWrites(li *loopInfo) (map[string][]string, bool, bool) {
 					}
 					ct = c.P.contractFor(f)
 				}
+				if ct == nil && !cc.IsInvoke() && cc.StaticCallee() == nil && c.ct != nil && c.ct.Uses["purefuncs"] {
+					if _, isTuple := in.(*ssa.Call).Type().(*types.Tuple); !isTuple {
+						continue // pure function value: no effect (see FnVC.call)
+					}
+				}
 				if ct == nil || ct.ModAll {
 					everything = true
 					allocs = true
@@ -660,7 +665,7 @@ func (c *FnVC) autoInvariants(li *loopInfo, phis []*ssa.Phi) {
 			if bo, ok := iff.Cond.(*ssa.BinOp); ok && bo.Op == token.LSS && invariantBound(bo.Y) && li.blocks[li.header.Succs[0]] {
 				if bo.X == phi {
 					bound = bo.Y
-				} else if isIncrOf(bo.X, phi) && len(steps) == 1 && steps[0] == bo.X {
+				} else if isIncrOf(bo.X, phi) && allSame(steps, bo.X) {
 					bound = bo.Y
 					cmpOnNext = true
 				}
@@ -771,4 +776,13 @@ func (c *FnVC) hoistTerm(v ssa.Value, outside func(ssa.Value) bool, depth int) (
 		return fmt.Sprintf("(fld %s %d)", xt, x.Field), true
 	}
 	return "", false
+}
+
+func allSame(vs []ssa.Value, x ssa.Value) bool {
+	for _, v := range vs {
+		if v != x {
+			return false
+		}
+	}
+	return len(vs) > 0
 }
